@@ -65,6 +65,11 @@ CHECKS = {
    text="proto.Reader (bufio + io.ReadFull + binary.ReadUvarint) and compress.Reader are executed over a harness transport that returns the SAME symbolic stream in pieces - one byte per Read, two pieces at every offset, and all 2^(n-1) segmentations of the leading bytes - for every block shape of C01 and for two-frame compressed streams; the solver decides that values, row counts and bytes consumed equal the single-segment outcome, and that a cut stream still fails under each segmentation.",
    ref="DESIGN.md §4 C08",
    note="bounds: rows<=1 (quick)/2, all segmentations of the first 5 (quick)/8 bytes, one-byte delivery and every two-piece split for the whole stream; the client-level part of the property (read timeouts between packets retried by Do's receive loop) is covered by the C03/C04 harness family when built, not here"),
+ "C02": dict(
+   level="model_checking",
+   text="The real Client.Do (sender, receiver and cancel-watch goroutines run as cooperative coroutines over errgroup/context models) is executed against a harness net.Conn with the negotiated revision symbolic (all revisions at once), all Query strings, settings (client and query level, flags), parameters, external data and input cells symbolic, compression disabled or enabled (method None framing, CityHash uninterpreted). The bytes recorded by the connection are asserted equal to the output of an independent reference encoder: one Query packet with the caller's fields in order, [external block] + empty block, then input block + empty block, each a Data packet with table name and exactly one checksummed frame iff compression is on; parameters are refused before 54459 with nothing written.",
+   ref="DESIGN.md §4 C02",
+   note="bounds: strings of tied length 0..1 (quick)/2, <=1 client setting, <=1 query setting, <=1 parameter, external data one UInt64 column, input <=2 columns (UInt64, String) x <=2 rows; LZ4/ZSTD bit streams outside (opaque codec); OpenTelemetry off; scheduling: first-runnable policy (the written bytes do not depend on the schedule in these scenarios); streamed input is C09"),
 }
 
 NA = {
